@@ -1023,3 +1023,64 @@ def c13_q5(ctx):
                 n += 1
                 yield bad("C13-Q5", "%s:%s" % (short(f.root or f.norm), cal.split("::")[-1]), at(f, t["span"]["line"]), "%s creates every missing ancestor: the request succeeds (and changes the filestore) where its precondition - the parent exists - does not hold" % cal)
     yield ok("C13-Q5", "filestore:no-ancestor-creation", "%d functions" % len(allf), "%d ancestor-creating calls" % n, nontrivial=(n == 0))
+
+
+# ================================================================ C20-P4 / P5
+@rule("C20", "C20-P4", 1, "every byte recorded as held is counted: each call of the insert operation on the transaction's range list is followed, on every path that returns normally, by adding its result to the progress counter")
+def c20_p4(ctx):
+    from rules_txn import _error_exit_blocks
+
+    fns = impl_fns(ctx, RECV)
+    n = 0
+    for f, b, t, d, r in call_sites(fns, ends("segments::Segments::merge"), ctx.prog):
+        e = ExprBuilder(ctx.prog, f).call(b, t)
+        if not (e[0] == "call" and e[3] and "self.saved_segments" in expr_str(e[3][0])):
+            continue
+        n += 1
+        key = "%s:merge->received_file_size" % f.name + ("#%d" % n if n > 1 else "")
+        writes = {wb for _f, wb, wj, ws, ps in field_writes([f], "self.received_file_size") if ps == "self.received_file_size"}
+        err = _error_exit_blocks(ctx, f)
+        start = t["target"]
+        # a normal return reachable from after the merge without passing the counter update?
+        reach = f.reachable(start, avoid=(writes | err) - {start}) if start not in writes else set()
+        leaks = [x for x in reach if f.blocks[x]["term"]["k"] == "return"]
+        if writes and not leaks:
+            yield ok("C20-P4", key, at(f, t["span"]["line"]), "every normal path after merge() adds its result to received_file_size")
+        else:
+            yield bad("C20-P4", key, at(f, t["span"]["line"]), "a path records the segment in the range list and returns without adding the newly held bytes to the progress counter: the reported progress falls behind what is held")
+    if n == 0:
+        raise Anchor("C20-P4", "Segments::merge on the receive transaction's range list")
+
+
+@rule("C20", "C20-P5", 1, "the first pass over the file always advances the sender's progress: a first-pass segment (no explicit offset) is sent with the progress update switched on")
+def c20_p5(ctx):
+    fns = impl_fns(ctx, SEND)
+    n = 0
+    for f in fns:
+        eb = ExprBuilder(ctx.prog, f)
+        for b, t in f.all_calls():
+            d, r, _ = ctx.prog.callee_of(t)
+            g = ctx.prog.by_norm.get(r or d or "")
+            if g is None or g not in fns or g.norm == f.norm:
+                continue
+            # callee with (Option<u64> offset, .., bool update) parameters
+            tys = [g.locals[i]["ty"] for i in range(1, g.arg_count + 1)]
+            if not any(ty == "bool" for ty in tys) or not any("Option<u64>" in ty for ty in tys):
+                continue
+            e = eb.call(b, t)
+            if e[0] != "call":
+                continue
+            oi = [i for i, ty in enumerate(tys) if "Option<u64>" in ty][0]
+            bi = [i for i, ty in enumerate(tys) if ty == "bool"][-1]
+            off = e[3][oi]
+            if not (off[0] == "agg" and off[3] == "None"):
+                continue  # a retransmission at an explicit offset
+            n += 1
+            key = "%s->%s:first-pass" % (f.name, g.name) + ("#%d" % n if n > 1 else "")
+            flag = e[3][bi]
+            if flag[0] == "const" and flag[1] in (1, True):
+                yield ok("C20-P5", key, at(f, t["span"]["line"]), "first-pass segment sent with the progress update on")
+            else:
+                yield bad("C20-P5", key, at(f, t["span"]["line"]), "a first-pass segment is sent with the progress update %s: the sender's reported progress stays behind what it has transmitted" % expr_str(flag)[:80])
+    if n == 0:
+        yield ok("C20-P5", "no-update-flag", "-", "the sender has no progress-update switch on its segment sender (see C20-P3 for the update itself)", nontrivial=False)
